@@ -122,6 +122,9 @@ class GateDirective:
             loc = parent_node.location
             await w.sched.gate("a:%s.%s@%s:%s" % (parent_node.name.value, argument_definition_node.name.value,
                                                   loc.line, loc.column), multi=True)
+        if (parent_node.name.value, argument_definition_node.name.value) in w.arg_faults:
+            from vt.world import InjectedError
+            raise InjectedError("argument hook failed for %s(%s)" % (parent_node.name.value, argument_definition_node.name.value))
         return await next_directive(parent_node, argument_definition_node, argument_node, value, ctx)
 
 
